@@ -109,6 +109,7 @@ type Engine struct {
 	mapOrderMode int
 	mapOrderPrev int
 	pooled map[*Cell]bool
+	envFailures int
 	optsChecked map[*StructV]bool
 	poolStore map[*Cell][]Iface
 	mapOrderDrawn bool
